@@ -237,7 +237,7 @@ def h_forms(ctx):
     if via == 'top':
         die = topdie
     else:
-        kids = ctx.drain(topdie.iter_children())
+        kids = ctx.walk(lambda: topdie.iter_children())
         ctx.check_eq('forms/children', len(kids), 1)
         if len(kids) != 1:
             return
@@ -427,9 +427,9 @@ def h_tree(ctx):
         if tu:
             hI, _ = unit_header(4, False, E.little, 8, 0, body_len=1)
             di, _ = mk_dwarfinfo(ctx, E.little, E.addr, debug_info=hI + [0], debug_abbrev=ab, debug_types=sec)
-            return ctx.drain(di.iter_TUs())[pre_units]
+            return ctx.walk(lambda: di.iter_TUs())[pre_units]
         di, _ = mk_dwarfinfo(ctx, E.little, E.addr, debug_info=sec, debug_abbrev=ab)
-        return ctx.drain(di.iter_CUs())[pre_units]
+        return ctx.walk(lambda: di.iter_CUs())[pre_units]
     cu = fresh()
     mode = cfg.get('mode', 'iter')
     want = [dict(off=top_off, size=1 + pad, code=1, children=bool(forest), null=False, depth=0, parent=None, val=None)] + flat
@@ -457,7 +457,7 @@ def h_tree(ctx):
         # NOT in the per-unit cache while the unit's last entry is), then the full iteration
         kids = ctx.drain(cu.get_top_DIE().iter_children())
         ctx.check_eq('tree/%s/children-first/top-children' % sib, [k.offset for k in kids], [w['off'] for w in want if w['depth'] == 1 and not w['null']])
-    dies = ctx.drain(cu.iter_DIEs())
+    dies = ctx.walk(lambda: cu.iter_DIEs())
     ctx.check_eq('tree/%s/count' % sib, len(dies), len(want))
     if len(dies) != len(want):
         return
@@ -538,14 +538,14 @@ def h_refs(ctx):
         info = hI + [1] + [2, 0xEE] * 24 + [0]
         di, _ = mk_dwarfinfo(ctx, E.little, E.addr, debug_info=info, debug_abbrev=ab, debug_types=types)
         if cfg.get('warm'):
-            ctx.drain(di.iter_CUs())
-        cuA = ctx.drain(di.iter_TUs())[0]
+            ctx.walk(lambda: di.iter_CUs())
+        cuA = ctx.walk(lambda: di.iter_TUs())[0]
     else:
         hA, _ = unit_header(E.version, E.fmt64, E.little, E.addr, 0, 'compile', body_len=bodyA_len)
         hB, _ = unit_header(4, False, E.little, 8, 0, 'compile', body_len=4)
         sec = hA + [1, 2, v[0], 3] + rb + [2, v[1], 0] + hB + [1, 2, v[2], 0]
         di, _ = mk_dwarfinfo(ctx, E.little, E.addr, debug_info=sec, debug_abbrev=ab)
-        cus = ctx.drain(di.iter_CUs()) if cfg.get('warm') else None
+        cus = ctx.walk(lambda: di.iter_CUs()) if cfg.get('warm') else None
         cuA = di.get_CU_at(offA)
     R = cuA.get_DIE_from_refaddr(r)
     T = R.get_DIE_from_attribute('DW_AT_type')
@@ -582,7 +582,7 @@ def h_ref_sig8(ctx):
     k = ctx.concretize(which)
     ctx.check_eq('ref_sig8/value', T.attributes['DW_AT_const_value'].value, vals[k])
     ctx.check_eq('ref_sig8/raw', R.attributes['DW_AT_type'].raw_value, want_sig)
-    tus = ctx.drain(di.iter_TUs())
+    tus = ctx.walk(lambda: di.iter_TUs())
     ctx.check_eq('ref_sig8/tu-count', len(tus), 2)
     ctx.check_eq('ref_sig8/tu-signatures', [t['signature'] for t in tus], sigs)
 
